@@ -52,7 +52,7 @@ var commonAssumptions = []string{
 
 type options struct {
 	repo, verif, property, tier, replay, mutant string
-	all, list, jsonOut, noFixtures, manifest   bool
+	all, list, jsonOut, noFixtures, manifest    bool
 }
 
 func main() {
